@@ -142,13 +142,27 @@ def plan_cases(mod, seed, tier):
     for family, count in mod.plan(tier):
         for index in range(count):
             cases.append(Case(mod.ID, family, index, seed, tier))
+    if getattr(mod, 'UPSTREAM_DECKS', False):
+        # the repository's example decks that exercise this property, read
+        # by the independent reader and judged by oracle R (vt/upstream.py)
+        from . import upstream
+        for index in range(upstream.NCHUNKS):
+            cases.append(Case(mod.ID, 'upstream-examples', index, seed, tier))
     return cases
 
 
 def run_one(mod, case, ctx):
     from . import monitors
     monitors.drain()
-    out = mod.run(case, ctx)
+    if case.family == 'upstream-examples':
+        from . import upstream
+        out = upstream.run_chunk(case, ctx, Outcome(), mod.ID)
+        out.structure = f'upstream-examples-{case.index}'
+        out.nontrivial = out.judged > 0
+        if not out.counters['upstream_decks']:
+            out.skipped = 'no-example-deck-in-chunk'
+    else:
+        out = mod.run(case, ctx)
     out.tags.add(case.family)
     for evt in monitors.drain():
         if evt['monitor'].endswith('-harness'):
@@ -171,8 +185,12 @@ def worker_main(pid, shard, nshards, seed, tier, outpath):
         if hasattr(mod, 'attach_monitors'):
             mod.attach_monitors()
         reach.start()
-        cases = [c for i, c in enumerate(plan_cases(mod, seed, tier))
-                 if i % nshards == shard]
+        only = os.environ.get('VERIF_ONLY_FAMILY')
+        cases = [c for c in plan_cases(mod, seed, tier)
+                 if not only or only in c.family]
+        # (VERIF_ONLY_FAMILY is a development aid: it restricts a run to the
+        # families containing the substring; never set by registered commands)
+        cases = [c for i, c in enumerate(cases) if i % nshards == shard]
         budget = getattr(mod, 'SHARD_BUDGET_S', {}).get(tier)
         with shim.Workdir() as workdir:
             ctx = Context(workdir)
